@@ -126,7 +126,8 @@ impl BrakingPoints {
                         self.points.push(BrakingPoint {
                             offset: bp_curr.offset - train_state.dt * speed_limit,
                             speed_limit,
-                            speed_target: bp_curr.speed_target,
+                            // the speed aimed for must never exceed the limit in force
+                            speed_target: bp_curr.speed_target.min(speed_limit),
                         });
                         if bp_curr.speed_limit == speed_points[idx].speed_limit.abs() {
                             break;
